@@ -426,13 +426,17 @@ def focus_shared_failure(draw, program, var):
 
 
 @st.composite
-def schedules(draw, program=None, max_tape=48):
+def schedules(draw, program=None, max_tape=48, collab=False):
     kind = _weighted(draw, [('index', 5), ('rank', 3), ('delay', 3), ('fifo', 1)])
     if kind == 'fifo':
         return {'kind': 'index', 'tape': []}
     if kind == 'delay':
         ids_ = [n['id'] for n in program['nodes']] if program else [f'n{i}' for i in range(10)]
-        return {'kind': 'delay', 'node': draw(st.sampled_from(ids_)), 'after': draw(st.integers(1, 14))}
+        sched = {'kind': 'delay', 'node': draw(st.sampled_from(ids_)), 'after': draw(st.integers(1, 14))}
+        if collab:
+            # withhold the node's body completion, or the event callbacks / artifact saves made on its behalf
+            sched['what'] = draw(st.sampled_from(['body', 'collab', 'collab', 'ev', 'save', 'any']))
+        return sched
     if kind == 'index':
         n = draw(st.integers(0, max_tape))
         tape = draw(st.lists(st.sampled_from([0, 0, 0, 1, 1, 2, 3, 4]), min_size=n, max_size=n))
@@ -450,12 +454,13 @@ def cases(draw, feats=ALL_FEATS, clean=True, n_scheds=3, **kw):
     """a full engine case: program + variant + schedules"""
     p_nested = kw.pop('p_nested', 3)
     p_fail = kw.pop('p_fail', 9)
+    collab_scheds = kw.pop('collab_scheds', False)
     if p_nested and draw(st.integers(0, p_nested)) == 0 and ({'switch', 'oneof'} & set(feats)):
         prog = draw(nested_programs(feats=feats, max_nodes=max(6, kw.get('max_nodes', 8) + 2)))
     else:
         prog = draw(programs(feats=feats, clean=clean, **kw))
     var = draw(variants(prog, feats=feats, p_fail=p_fail))
-    scheds = [draw(schedules(prog)) for _ in range(n_scheds)]
+    scheds = [draw(schedules(prog, collab=collab_scheds)) for _ in range(n_scheds)]
     return {'program': prog, 'variant': var, 'scheds': scheds}
 
 
